@@ -32,6 +32,11 @@ def catalogue(big=False):
     """big: also the shapes with more than a hundred jobs (used where fork naming matters)"""
     P = []
 
+    # 0. chain of two stages in which the consumer's name sorts before the producer's
+    P.append(program("chain_rev", [], [S_const("ZFIRST", "int y", {"y": 7}), S_echo("ASECOND")],
+                     [pipeline("TOP", "", "int o",
+                               [call("ZFIRST"), call("ASECOND", binds={"x": ref("ZFIRST", "y")})],
+                               {"o": ref("ASECOND", "y")})], "TOP", {}))
     # 1. chain of two stages
     P.append(program("chain", [], [S_const("A", "int y", {"y": 7}), S_echo("B")],
                      [pipeline("TOP", "", "int o",
